@@ -22,6 +22,7 @@ from dsim.core import Trace
 from dsim.core import b2s
 from dsim.core import s2b
 from dsim.streams import SimStream
+from dsim.streams import SimStreamInto
 
 TOKENS = [
     ",", ";", "=", '"', "'", "*", "%", "\\", "/", ":", "@", "[", "]", "(", ")", "<", ">", "?", "&", "+", "-", "_", ".", " ", "  ", "\t",
@@ -141,6 +142,8 @@ def gen_hostile(rng: random.Random) -> dict:
         "limits": [rng.choice([None, None, 10, 100]), rng.choice([None, None, 10, 500000]), rng.choice([None, 1, 1000])],
         "tape": [] if rng.random() < 0.4 else [rng.choice([0, 1, 2, 5, 30]) for _ in range(40)],
         "fail_at": [rng.randrange(0, 5)] if rng.random() < 0.08 else [],
+        "readinto": rng.random() < 0.5,
+        "error": rng.choice(["oserror", "timeout", "reset", "broken_pipe"]),
         "order": rng.randrange(6),
     }
 
@@ -399,7 +402,9 @@ class HostileEnviron(Scenario):
         # an I/O error is only injected where werkzeug's LimitedStream sits between the application and the
         # server's stream; a server-terminated stream without max_content_length is handed out as it is
         wrapped = not (case.get("terminated") and lim[0] is None)
-        sim = SimStream(body, Tape(case.get("tape")), fail_at=[x for x in case.get("fail_at", []) if isinstance(x, int)] if wrapped else [], hang_calls=6 * len(body) + 500)
+        stream_cls = SimStreamInto if case.get("readinto") else SimStream
+        sim = stream_cls(body, Tape(case.get("tape")), fail_at=[x for x in case.get("fail_at", []) if isinstance(x, int)] if wrapped else [], hang_calls=6 * len(body) + 500,
+                         error=case.get("error") if case.get("error") in ("oserror", "timeout", "reset", "broken_pipe") else "oserror")
         env = make_environ(case, sim)
 
         class Req(Request):
@@ -534,7 +539,16 @@ class HostileWire(Scenario):
             out.violate(f"{pre}/server-blocks-or-spins", str(e))
             sock, err = None, None
         if err is not None:
-            out.violate(f"{pre}/handler-raises/{type(err).__name__}", f"{type(err).__name__}: {err}")
+            # an exception raised by the stdlib's own request parsing before any werkzeug code other than the thin
+            # ``handle`` wrapper ran is outside the property (e.g. email.utils.decode_params crashing on ``a*;a*0``)
+            import traceback as _tb
+
+            frames = [(f.filename, f.name) for f in _tb.extract_tb(err.__traceback__)]
+            wz = {name for fn, name in frames if fn.endswith("werkzeug/serving.py")}
+            if not ran["n"] and wz <= {"handle"}:
+                out.probe("stdlib_failed_before_werkzeug")
+            else:
+                out.violate(f"{pre}/handler-raises/{type(err).__name__}", f"{type(err).__name__}: {err}")
         tr.add("request", head[:300], len(body), "ran", ran["n"], "outcomes", seen)
         if sock is not None:
             tr.add("response", bytes(sock.sent)[:60])
